@@ -4,6 +4,7 @@ import (
 	"fmt"
 	"go/token"
 	"go/types"
+	"strings"
 
 	"golang.org/x/tools/go/ssa"
 )
@@ -84,6 +85,7 @@ func checkEvictionShortfall(c *Ctx, rule string) {
 			}
 		}
 	}
+	checkEvictionSingleRow(c, rule, evictors)
 	n := 0
 	for _, ev := range sortedFuncs(boolSet(evictors)) {
 		backend := evictors[ev]
@@ -175,4 +177,57 @@ func boolSet(m map[*ssa.Function]string) map[*ssa.Function]bool {
 		out[k] = true
 	}
 	return out
+}
+
+// checkEvictionSingleRow: a one-at-a-time SQL evictor removes one row.
+func checkEvictionSingleRow(c *Ctx, rule string, evictors map[*ssa.Function]string) {
+	p := c.P
+	if evictors == nil {
+		evictors = map[*ssa.Function]string{}
+		for _, t := range p.sqlTransitions("sqlite") {
+			if t.Kind == "delete" && t.HasFrom && t.From == ssParse("queued") && (t.Root == "Enqueue" || t.Root == "EnqueueBatch") && t.Stmt.Fn != nil && p.SharedBy(t.Stmt.Fn) < 4 {
+				evictors[t.Stmt.Fn] = "sqlite"
+			}
+		}
+	}
+	nStmt := 0
+	// a one-at-a-time SQL evictor removes one row: its callers count one eviction per call, so a DELETE that can take
+	// several rows (all rows tying on the oldest received_at, say) loses queued messages nobody accounted for
+	msql := p.SQL()
+	seenStmt := map[*SQLStmt]bool{}
+	for _, t := range p.sqlTransitions("sqlite") {
+		if t.Kind != "delete" || !t.HasFrom || t.From != ssParse("queued") || (t.Root != "Enqueue" && t.Root != "EnqueueBatch") || t.Stmt.Fn == nil || seenStmt[t.Stmt] {
+			continue
+		}
+		if evictors[t.Stmt.Fn] != "sqlite" {
+			continue
+		}
+		counted := false
+		for _, pr := range t.Stmt.Fn.Params {
+			if b, ok := pr.Type().Underlying().(*types.Basic); ok && b.Kind() == types.Int {
+				counted = true
+			}
+		}
+		if counted {
+			continue
+		}
+		seenStmt[t.Stmt] = true
+		nStmt++
+		single := false
+		var conj []string
+		for _, w := range t.Stmt.St.where {
+			lw := strings.Join(strings.Fields(strings.ToLower(msql.R(t.Stmt, w))), " ")
+			conj = append(conj, lw)
+			if strings.HasPrefix(lw, "id = ?") || strings.HasPrefix(lw, "id = $") {
+				single = true
+			}
+			if strings.HasPrefix(lw, "id = (") && strings.Contains(lw, "limit 1") {
+				single = true
+			}
+		}
+		c.Check(single, rule, msql.Key(t.Stmt)+":one eviction removes one row", t.Pos,
+			"DELETE keyed by a single id (id = (SELECT … LIMIT 1))",
+			"the one-at-a-time evictor's DELETE is not keyed by a single id (WHERE "+strings.Join(conj, " AND ")+"): one counted eviction can remove several queued messages — e.g. every message of a batch, which share one received_at")
+	}
+	c.Floor(rule, "one-at-a-time eviction statements", nStmt, 1)
 }
